@@ -35,7 +35,7 @@ DISPATCH = ['', AVX512, AVX512 + ' AVX2 FMA3']
 RULE = ('runs generated from the seed in groups of five (same choice sequence; interpreter environment: NumPy dispatch none-disabled / AVX-512 disabled / AVX-512+AVX2+FMA3 disabled / NPY_PROMOTION_STATE=weak / PYTHONOPTIMIZE=1): '
         'a database of 3-200 references built at signature level with identical, nested and equidistant members, 1-4 queries, then 4-10 executions of query() with drawn '
         'report_closest 1..n+3, chunk size, OpenMP team size and hand-out; a tenth of the runs also go through the CLI (-f json and -f csv). A case is '
-        '(tie structure of the distance row, N, dispatch setting, team size, chunk regime); non-trivial = the row has a tie inside or at the edge of the reported prefix. Run groups of five share a choice sequence (three dispatch settings, NPY_PROMOTION_STATE=weak, PYTHONOPTIMIZE=1). Further drawn dimensions: one database object reused across executions with in-memory threshold edits, one QueryParams object reused across a small and the main database, references at distance exactly j/10.')
+        '(tie structure of the distance row, N, dispatch setting, team size, chunk regime); non-trivial = the row has a tie inside or at the edge of the reported prefix. Run groups of five share a choice sequence (three dispatch settings, NPY_PROMOTION_STATE=weak, PYTHONOPTIMIZE=1). Further drawn dimensions: one database object reused across executions with in-memory threshold edits, one QueryParams object reused across a small and the main database, references at distance exactly j/10, references at two distinct distances less than 1e-6 apart (1000/2001 and 1001/2003 shared, 15% of the worlds).')
 STATES_MEASURE = 'distinct (dispatch setting, tie pattern of the reported prefix) pairs'
 
 REAL = ['gambit.query.query / get_result_item', 'gambit.classify', 'jaccarddist_matrix + compiled kernel', 'numpy argsort/argmin under the dispatch setting of the interpreter',
@@ -134,13 +134,18 @@ def scenario(ctx):
 	kspec = KmerSpec(ch.pick([6, 5, 7, 9, 11], 'k'), ch.pick(['AT', 'GC', 'ATG', 'ATGAC'], 'prefix'))
 	n_ref = ch.pick([5, 3, 8, 12, 20, 33, 60, 120, 200], 'n_ref')
 	rng = random.Random(ch.subseed('world'))
-	world = R.build(ctx, rng, kspec, n_ref, fast_sigs=True)
+	near_ties = ch.flip(0.15, 'near_ties')
+	world = R.build(ctx, rng, kspec, n_ref, fast_sigs=True, near_ties=near_ties)
 	order_idx = R.db_order(world)
 	taxa_on_disk = [dict(t) for t in world.taxa]
 	nq = ch.int(1, 4, 'nq')
 	universe = min(4 ** kspec.k, 2 ** 40)
 	queries = []
 	for i in range(nq):
+		if i == 0 and world.near_query is not None:
+			queries.append(world.near_query.astype(kspec.index_dtype))
+			ctx.probe('query_with_distinct_distances_closer_than_1e-6')
+			continue
 		r = rng.random()
 		if r < 0.25 and world.decimal_query is not None:
 			queries.append(world.decimal_query.astype(kspec.index_dtype))
